@@ -210,6 +210,14 @@ def sel_job(j):
         for d_, p_ in (("d1", "lnk"), ("d2", "dir/lnk2"), ("d1", "emptyA"), ("d2", "dir/emptyB")):
             L.rm(d_, p_)
         c = L.content()
+        # and one silently wrong parity block in a stripe none of whose files is missing or marked bad: a selection that leaves
+        # the parity out (-f, -m, -d DATADISK) must leave it exactly as it is
+        gone = {("d1", "dir/a"), ("d2", "x.t")}
+        bad0 = {i for i, inf in enumerate(c.info) if inf is not None and inf[1]}
+        busy = {pos for d in c.disks.values() for f in d.files for _, pos, _ in f.blocks if (d.name.decode(), f.sub.decode()) in gone} | bad0
+        quiet = [pos for pos in sorted(F.used_stripes(c)) if pos not in busy]
+        if quiet:
+            F.damage_parity_block(L, c, 0, quiet[-1], "flip0")
         S = L.save()
         bad_pos = {i for i, inf in enumerate(c.info) if inf is not None and inf[1]}
         r = L.run("check", "-v", *opts)
@@ -256,7 +264,11 @@ def sel_job(j):
             viols.append(dict(kind="check-wrote", opts=opts, paths=sorted(ch)))
         # the same selection in fix: nothing outside it is written (files, links and empty directories)
         L.restore(S)
+        par_before = [labmod._slurp(p_) for p_ in L.parity_paths(0)]
         rf = L.run("fix", *opts)
+        parity_selected = not (fpat or miss or (dsel is not None and dsel in L.cfg.disknames))
+        if not parity_selected and [labmod._slurp(p_) for p_ in L.parity_paths(0)] != par_before:
+            viols.append(dict(kind="fix-wrote-parity-outside-selection", opts=opts))
         sel_links, sel_dirs = set(), set()
         frules = [(1, R.parse(p)) for p in fpat]
         for d in c.disks.values():
